@@ -53,6 +53,11 @@ impl<'a> Gen<'a> {
     }
 
     fn string(&self, rng: &mut Rng) -> String {
+        if rng.chance(1, 60) {
+            // byte lengths around the width boundary of the zig-zag length prefix
+            let n = *rng.pick(&[62usize, 63, 64, 65, 127, 128]);
+            return (0..n).map(|_| (b'a' + rng.below(26) as u8) as char).collect();
+        }
         match rng.below(4) {
             0 => rng.pick(WORDS).to_string(),
             1 => {
@@ -177,9 +182,11 @@ impl<'a> Gen<'a> {
             Ty::Bool => Val::Bool(rng.chance(1, 2)),
             Ty::Unit => Val::Unit,
             Ty::Char => Val::Char(loop {
-                let c = match rng.below(4) {
+                let c = match rng.below(5) {
                     0 => rng.below(128) as u16,
                     1 => 0xFFFF,
+                    // boundaries of the UTF-8 / UTF-16 classes
+                    2 => *rng.pick(&[0u16, 0x7F, 0x80, 0x7FF, 0x800, 0xD7FF, 0xE000, 0xFFFE, 0xFEFF]),
                     _ => rng.next_u64() as u16,
                 };
                 if !(0xD800..=0xDFFF).contains(&c) {
@@ -258,7 +265,11 @@ impl<'a> Gen<'a> {
                 };
                 Val::Bytes(if rng.chance(1, 2) { vec![rng.next_u64() as u8; n] } else { rng.bytes(n) })
             }
-            Ty::Uuid => Val::Bytes(rng.bytes(16)),
+            Ty::Uuid => Val::Bytes(match rng.below(6) {
+                0 => vec![0u8; 16],
+                1 => vec![0xFFu8; 16],
+                _ => rng.bytes(16),
+            }),
             Ty::Weekday => Val::U(rng.range(1, 7) as u128),
             Ty::Month => Val::U(rng.range(1, 12) as u128),
             Ty::FixedOffset => Val::I(match rng.below(6) {
@@ -312,7 +323,11 @@ impl<'a> Gen<'a> {
             }
             Ty::BigInt => {
                 let n = rng.usize_below(20);
-                let b = rng.bytes(n);
+                let mut b = rng.bytes(n);
+                if rng.chance(1, 4) {
+                    // where the signed big-endian representation changes its length
+                    b = rng.pick(&[vec![0x7Fu8], vec![0x00, 0x80], vec![0x80], vec![0xFF, 0x7F], vec![0x00, 0xFF], vec![0x01, 0x00], vec![0xFF], vec![]]).clone();
+                }
                 Val::Bytes(num_bigint::BigInt::from_signed_bytes_be(&b).to_signed_bytes_be())
             }
             Ty::BigDecimal => {
